@@ -1572,10 +1572,13 @@ def table_hdr_cell_fn(ctx: "Wtp", token: str) -> None:
         if node.kind in (
             NodeKind.HTML,
             NodeKind.TEMPLATE,
+            NodeKind.TEMPLATE_ARG,
+            NodeKind.PARSER_FN,
             NodeKind.LINK,
             NodeKind.URL,
         ):
-            # Inside nested HTML, interpret ! and !! as normal text
+            # Inside nested HTML and inside the brackets of a call or link,
+            # interpret ! and !! as normal text
             return text_fn(ctx, token)
         if (
             node.kind == NodeKind.TABLE_CELL
